@@ -19,7 +19,7 @@ const SP: &str = "BaseSplitGenerator";
 /// one adversarial deviation of an honest assignment; returns a tag
 fn mutate(r: &mut Rng, a: &mut LeafAssign) -> &'static str {
     let big: [u64; 8] = [1 << 32, (1 << 32) + 1, P - 1, P - 2, P - (1 << 32), 1 << 33, 1 << 63, (1u64 << 48) + 5];
-    match r.below(34) {
+    match r.below(38) {
         0 => "honest",
         1 => {
             a.asset = *r.pick(&big);
@@ -217,6 +217,42 @@ fn mutate(r: &mut Rng, a: &mut LeafAssign) -> &'static str {
             }
             "dummy-with-bad-range"
         }
+        33 => {
+            // a NON-zero block hash whose limbs cancel mod p (sum / product style shortcuts would call it zero),
+            // zero outputs, forged nullifier: not a dummy, so every binding applies
+            a.block_hash = *r.pick(&[[1, P - 1, 0, 0], [P - 1, 0, 1, 0], [0, 2, 0, P - 2], [5, 0, 0, 0], [0, 0, 0, 1]]);
+            a.out1 = 0;
+            a.out2 = 0;
+            a.nullifier = rand_digest(r);
+            "block-hash-limbs-cancel-zero-outputs"
+        }
+        34 => {
+            // zero block hash, outputs whose SUM is 0 mod p but are not both zero
+            a.block_hash = [0; 4];
+            a.out1 = 1;
+            a.out2 = P - 1;
+            a.nullifier = rand_digest(r);
+            "zero-block-hash-outputs-cancel"
+        }
+        35 | 36 => {
+            // tamper one bound digest by a shift whose limb sum is 0 mod p (+k on one limb, -k on another): a binding that
+            // was weakened to a sum / linear combination of limb differences would not notice
+            let k = 1 + r.below(3);
+            let i = r.below(4) as usize;
+            let j = (i + 1 + r.below(3) as usize) % 4;
+            let which = r.below(6);
+            let d: &mut [u64; 4] = match which {
+                0 => &mut a.nullifier,
+                1 => &mut a.block_hash,
+                2 => &mut a.root_hash,
+                3 => &mut a.tree_root,
+                4 => &mut a.to_account,
+                _ => &mut a.unsp_account,
+            };
+            d[i] = ((d[i] as u128 + k as u128) % P as u128) as u64;
+            d[j] = ((d[j] as u128 + P as u128 - k as u128) % P as u128) as u64;
+            "digest-limbs-shifted-sum-preserving"
+        }
         _ => {
             a.exit1 = rand_digest(r);
             a.exit2 = rand_digest(r);
@@ -263,7 +299,7 @@ fn main() {
         out.case(105, "fingerprint", &a.segs(), &fp);
     }
 
-    let per_depth = if thorough { 160 } else { 14 };
+    let per_depth = if thorough { 300 } else { 40 };
     let mut proved = 0usize;
     for depth in 0..=MAX_DEPTH {
         for rep in 0..per_depth {
